@@ -3,7 +3,7 @@
    compared with the observation of the real fsic.  Definitions only. *)
 From Coq Require Import ZArith List Bool String.
 Import ListNotations.
-Require Import PyBase Locate LocateIndex LocateK Reindex ReindexPd.
+Require Import PyBase Locate LocateIndex LocateK Reindex.
 Open Scope Z_scope.
 Open Scope list_scope.
 
@@ -125,30 +125,12 @@ Definition rpd_model_ok (c : rcase) : bool :=
       end
   | _ => true
   end.
-(* the float64 model of Series.reindex / the casting assignment (ReindexPd.v) against every recorded answer it speaks about *)
-Definition ocells_eqb (a b : outcome (list cell)) : bool :=
-  match a, b with Ret x, Ret y => cells_eqb x y | Raise e, Raise f => exn_eqb e f | _, _ => false end.
-Definition rfloat_model_ok (c : rcase) : bool :=
-  match r_kind c with
-  | RPandas _ _ _ _ _ _ _ srt act =>
-      forallb (fun e : sr_key * outcome (list cell) =>
-                 match e with
-                 | ((DFloat, d, None, PNone), r) => ocells_eqb (float_series_reindex (r_old c) DFloat d (r_new c) None PNone) r
-                 | _ => true
-                 end) srt
-      && forallb (fun e : (dtype * list cell) * outcome (list cell) =>
-                    match e with
-                    | ((DFloat, d), r) => if forallb is_cf d then ocells_eqb (float_assign_cast DFloat d) r else true
-                    | _ => true
-                    end) act
-  | _ => true
-  end.
 Definition obj_ids_of (vars : list (string * series cell)) : list Z :=
   flat_map (fun kv => flat_map (fun c => match c with CO id => [id] | _ => [] end) (s_data (snd kv))) vars.
 Definition shares_objects (old new : list (string * series cell)) : bool :=
   existsb (fun id => existsb (Z.eqb id) (obj_ids_of old)) (obj_ids_of new).
 Definition check_rcase (c : rcase) : bool :=
-  rout_eqb (run_rcase c) (r_exp c) && rpd_model_ok c && rfloat_model_ok c
+  rout_eqb (run_rcase c) (r_exp c) && rpd_model_ok c
   && Bool.eqb (match run_rcase c with Ret st' => shares_objects (r_vars c) (c_vars st') | Raise _ => false end) (r_shared c)
   && Bool.eqb (match run_rcase c with Ret st' => c_span_id st' =? 0 | Raise _ => false end) (r_span_shared c).   (* the original's span object is 0 *)
 Fixpoint rbad_indices (i : nat) (l : list rcase) : list nat :=
